@@ -290,3 +290,51 @@ pub fn generate(family: &str, seed: u64, tier: &str) -> Vec<String> {
     }
     out.into_iter().map(|v| v.to_string()).collect()
 }
+
+/// A row of the framing decision table printed by TLC (MC_Framing) -> exchange scenario.
+pub fn framing_row_to_scenario(row: &Value) -> Option<Value> {
+    let clmap = |sym: &str| -> String {
+        match sym {
+            "max64" => "18446744073709551615".into(),
+            "neg" => "-1".into(),
+            "empty" => "".into(),
+            "alpha" => "x".into(),
+            "over64" => "18446744073709551616".into(),
+            "hex" => "0x3".into(),
+            "float" => "3.0".into(),
+            other => other.to_string(),
+        }
+    };
+    let cl: Vec<String> = ga(row, "cl").iter().map(|x| clmap(x.as_str().unwrap())).collect();
+    let te: Vec<&str> = match gs(row, "te") {
+        "none" => vec![],
+        "identity,chunked" => vec!["identity, chunked"],
+        "identity;chunked" => vec!["identity", "chunked"],
+        "chunked,identity" => vec!["chunked, identity"],
+        other => vec![other],
+    };
+    let f = gs(row, "f");
+    let extra = gu(row, "extra");
+    let mut body = match f {
+        "chunked" => json!({"kind":"chunked","chunks":[2,3]}),
+        "length" => json!({"kind":"length","declared":gu(row, "n")}),
+        "unguarded" => return None,
+        _ => json!({"kind":"close"}),
+    };
+    body["cl"] = json!(cl);
+    body["te"] = json!(te);
+    let mut sc = json!({
+        "id": if !gs(row, "id").is_empty() { gs(row, "id").to_string() } else { format!("fr-{}-{}-{}-{}-{}", gs(row,"method"), gu(row,"status"), ga(row,"cl").iter().map(|x| x.as_str().unwrap()).collect::<Vec<_>>().join("+"), gs(row,"te"), extra) },
+        "method": gs(row, "method"), "status": gu(row, "status"), "body": body, "plen": 5, "seed": 7,
+        "expect": {"framing": if f == "reject" { "close" } else { f }, "reject": f == "reject"},
+        "steps": [["send"], ["reads"]], "pat": [3], "extra": 1, "pre": 100000,
+    });
+    if f != "close" && f != "reject" && !(f == "length" && gu(row, "n") > 5) {
+        sc["garbage"] = json!(extra);
+    }
+    if gu(row, "status") / 100 == 1 || f == "none" {
+        // whatever follows a bodiless head must not be read as its body
+        sc["g19"] = json!(true);
+    }
+    Some(sc)
+}
